@@ -2,8 +2,8 @@
    Only the property theorems: each is closed by `exact` of a lemma proved in Chan/P*.v and
    followed by Print Assumptions.  Model: Chan/ModelMpsc.v (dfir_rs/src/util/unsync/mpsc.rs). *)
 From Coq Require Import List Arith Bool NArith.
-From HV Require Import Chan.ModelMpsc Chan.ModelMpscChk Chan.PMpscSafe Chan.PMpscLive Chan.PMpscRefute.
-From HV Require Import Chan.PMpscAll.
+From HV Require Import Chan.Base Chan.ModelMpsc Chan.ModelMpscChk Chan.PMpscSafe Chan.PMpscLive Chan.PMpscRefute.
+From HV Require Import Chan.PMpscAll Chan.PMpscObs.
 Import ListNotations.
 
 (* Safety, every executor policy (also spurious polls and cancelled senders), every number of
@@ -77,6 +77,22 @@ Theorem C16_no_rx_strand : forall p c progs tr s,
   reachable p (init c progs) tr s -> ~ RxStranded s.
 Proof. exact no_rx_strand_all. Qed.
 Print Assumptions C16_no_rx_strand.
+
+(* The executable form of the property used by the correspondence check (an observer that sees
+   only labels and observations) is tied to the theorems: on the observations of every behaviour
+   of the model it holds, hence whenever the implementation's observations agree with the
+   model's the verdict is 0 -- "property fails on the implementation's outputs" (bit 1) can
+   only be reported together with "implementation differs from the model" (bit 0). *)
+Theorem C16_holds_b_on_model : forall p c progs ls,
+  C16_holds_b c progs ls (fst (run p (init c progs) ls)) = true.
+Proof. exact holds_b_on_model. Qed.
+Print Assumptions C16_holds_b_on_model.
+
+Theorem C16_agree_implies_holds : forall c progs spur canc ls impl,
+  list_eqb obs_eqb (fst (run (mkPolicy spur canc) (init c progs) ls)) impl = true ->
+  C16_holds_b c progs ls impl = true /\ chk16 c progs spur canc ls impl = 0%N.
+Proof. exact agree_implies_holds. Qed.
+Print Assumptions C16_agree_implies_holds.
 
 (* ------------------------------------------------------------------ non-vacuity *)
 
